@@ -116,13 +116,22 @@ def check_far(case, stats):
     # brute force on run ends only: in 1-D the border voxels are the first and last voxel of every run
     def borders(a):
         idx = np.flatnonzero(a)
-        keep = [i for k, i in enumerate(idx) if k == 0 or k == len(idx) - 1 or idx[k - 1] != i - 1 or idx[k + 1] != i + 1]
-        return np.array(keep)
+        first = np.r_[True, np.diff(idx) != 1]   # no foreground voxel directly before
+        last = np.r_[np.diff(idx) != 1, True]    # no foreground voxel directly after
+        return idx[first | last]
     bp, br = borders(pred), borders(ref)
     def asd(x, y):
-        return float(np.mean([np.min(np.abs(y - v)) for v in x]))
+        ys = np.sort(y)
+        pos = np.searchsorted(ys, x)
+        lo = np.abs(x - ys[np.clip(pos - 1, 0, len(ys) - 1)])
+        hi = np.abs(ys[np.clip(pos, 0, len(ys) - 1)] - x)
+        return float(np.mean(np.minimum(lo, hi).astype(np.float64)))
     want = 0.5 * (asd(bp, br) + asd(br, bp))
-    gap = max(float(np.max([np.min(np.abs(br - v)) for v in bp])), float(np.max([np.min(np.abs(bp - v)) for v in br])))
+    def far(x, y):
+        ys = np.sort(y)
+        pos = np.searchsorted(ys, x)
+        return float(np.max(np.minimum(np.abs(x - ys[np.clip(pos - 1, 0, len(ys) - 1)]), np.abs(ys[np.clip(pos, 0, len(ys) - 1)] - x))))
+    gap = max(far(bp, br), far(br, bp))
     stats.record(case, not np.array_equal(bp, br), ["far_apart", f"max_gap>{46340 if gap > 46340 else 0}"])
     if case["thin2d"]:
         # thin 2-D arrays: every voxel of a 1-voxel-thick row is a border voxel (out-of-array neighbours),
